@@ -105,13 +105,15 @@ def main(run: Run):
                         "torch kernels are modelled (broadcast, sum, masked_fill, index_put, view, expand), checked by execution only"]
     run.trusted.append("hand-written model coq/theories/Masked/{Weighted,Pipeline}.v tied by exact differential execution (harness/props/c06_api.py; noise rules and put_data_variables: harness/props/c06_pipeline.py)")
     api_tie(run, 50000 if thorough else 3000)
-    try:
-        P.noise_tie(run, 4000 if thorough else 400)
-        P.put_data_tie(run, 400 if thorough else 60)
-        P.run_oracle(run, thorough)
-    except Exception as e:  # noqa: BLE001
-        import traceback
-        run.broken("oracle-crashed", f"{type(e).__name__}: {e}\n{traceback.format_exc()[-1500:]}", kind="broken-correspondence")
+    # each stage on its own: a tie that no longer runs must not stop the search for a failing input on the real pipeline
+    for stage, fn in (("noise-tie", lambda: P.noise_tie(run, 4000 if thorough else 400)),
+                      ("put-data-tie", lambda: P.put_data_tie(run, 400 if thorough else 60)),
+                      ("pipeline-oracle", lambda: P.run_oracle(run, thorough))):
+        try:
+            fn()
+        except Exception as e:  # noqa: BLE001
+            import traceback
+            run.broken(f"oracle-crashed:{stage}", f"{type(e).__name__}: {e}\n{traceback.format_exc()[-1500:]}", kind="broken-correspondence")
     return run.finish()
 
 
